@@ -10,6 +10,8 @@ from ..core import FUNC, call_attr, calls_in, const, dotted, is_const, kwarg, no
 from .c01 import field_rules
 
 EXPLANATION = [
+    'C18.sdp-depth: the SDP parser\'s nesting counter is restored on every normal exit (same rule as C17.depth-balance), so what was parsed before does not change what parses next.',
+    'C18.length-prefix: in every writer of the form <length of x> + <payload>, the length measured and the payload appended are the same value (byte length of the encoded text, not character count).',
     'C18.fields: the declarative-field rules of C01 applied to every metadata-declared class of L2CAP, ATT, SMP, SDP, AVDTP and AVRCP.',
     'C18.registry: within each PDU registry (L2CAP control frames, ATT PDUs, SMP commands, SDP PDUs, AVDTP messages) no two classes share a code.',
     'C18.bits: for every hand-written codec pair whose bit fields the extractor recognises on both sides, each field is parsed from the '
@@ -435,7 +437,47 @@ def generic(ctx):
         R.check('length = data[offset]' in s and 'offset += 1' in s and 'ad_type = data[offset]' in s and 'ad_data = data[offset + 1:offset + length]' in s and 'offset += max(length, 1)' in s or ('offset += length' in s), rule, 'bumble.core.AdvertisingData.append | structure', 'length byte, type byte, length-1 data bytes, advance by length', 'AD structure parse changed', p.loc(ap))
 
 
+
+def sdp_depth(ctx):
+    from . import c17
+    c17.depth_balance(ctx, rule='C18.sdp-depth')
+
+
+def length_prefix(ctx):
+    """A length-prefixed string is prefixed with the length of exactly the bytes that follow."""
+    R, p = ctx.r, ctx.p
+    rule = 'C18.length-prefix'
+    n = 0
+    for mod in ('bumble.avrcp', 'bumble.avdtp', 'bumble.sdp', 'bumble.hfp', 'bumble.a2dp', 'bumble.avc', 'bumble.avctp'):
+        m = p.module(mod)
+        if m is None:
+            continue
+        for fn in [x for x in ast.walk(m.tree) if isinstance(x, FUNC)]:
+            defs = {t.id: n_.value for n_ in walk_local(fn) if isinstance(n_, ast.Assign) and len(n_.targets) == 1 for t in n_.targets if isinstance(t, ast.Name)}
+
+            def res(e, depth=0):
+                while isinstance(e, ast.Name) and e.id in defs and depth < 4:
+                    e, depth = defs[e.id], depth + 1
+                return e
+            for r in [x for x in walk_local(fn) if isinstance(x, ast.Return) and isinstance(x.value, ast.BinOp) and isinstance(x.value.op, ast.Add)]:
+                left, right = res(r.value.left), res(r.value.right)
+                # left: len(X).to_bytes(...) or bytes([len(X)]) or struct.pack(fmt, len(X))
+                lens = [c for c in ast.walk(left) if isinstance(c, ast.Call) and dotted(c.func) == 'len' and c.args]
+                if len(lens) != 1 or not any(isinstance(c, ast.Call) and (call_attr(c) == 'to_bytes' or dotted(c.func) in ('bytes', 'struct.pack')) for c in ast.walk(left)):
+                    continue
+                measured = res(lens[0].args[0])
+                raw_m, raw_r = lens[0].args[0], r.value.right
+                if '.encode(' not in norm(measured) + norm(right) and not (isinstance(raw_r, ast.Name) and isinstance(raw_m, ast.Name)):
+                    continue  # an element count in front of a packed list is not a byte-length prefix
+                n += 1
+                R.check(norm(measured) == norm(right), rule, f'{p.qual_of(fn)} | length prefix', f'prefix = len({norm(measured)}) and the payload is that very value',
+                        f'the length prefix counts `{norm(measured)}` but the bytes that follow are `{norm(right)}`: for values where the two differ (non-ASCII text) the reader cuts the field short and mis-frames everything after it', p.loc(r))
+    R.check(n >= 1, rule, 'length-prefixed writers', f'{n} writers of the form len(x) + x examined', 'no length-prefixed writer found')
+
+
 RULES = [
+    ('C18.sdp-depth', sdp_depth),
+    ('C18.length-prefix', length_prefix),
     ('C18.fields', fields_rule),
     ('C18.registry', registry),
     ('C18.bits', bits_rule),
